@@ -348,6 +348,42 @@ func checkC04(c *Ctx) int {
 		trans += t
 		tornEvals += e
 	}
+	// a torn store state the crash runs hit only rarely (about once in 200 kills): the process dies
+	// right after the store created a new, still empty memtable file
+	{
+		n := c.StartNode(node.Config{})
+		w := c04World(n, c.Seed)
+		for i := 0; i < 8; i++ {
+			_, err := w.step()
+			must(err, "world step")
+		}
+		must(n.Idle(), "idle")
+		before, err := snap.TakeCanon(n, c04SnapOpts())
+		must(err, "snapshot")
+		n.Kill()
+		mems, _ := filepath.Glob(filepath.Join(n.Cfg.Dir, "db", "*.mem"))
+		next := 1
+		for _, m := range mems {
+			var k int
+			fmt.Sscanf(filepath.Base(m), "%d.mem", &k)
+			if k >= next {
+				next = k + 1
+			}
+		}
+		must(os.WriteFile(filepath.Join(n.Cfg.Dir, "db", fmt.Sprintf("%05d.mem", next)), nil, 0644), "create empty memtable file")
+		run.Eval("empty-memtable-file")
+		if err := n.Restart(false); err != nil {
+			run.Violation("c04", c04Divergence{Kind: "startup-failed-after-crash", Interrupted: "process killed right after the store created an empty memtable file",
+				Diffs: []string{err.Error()}, History: w.log})
+		} else {
+			after, err := snap.TakeCanon(n, c04SnapOpts())
+			must(err, "snapshot")
+			if d := snap.Diff(before, after); len(d) > 0 {
+				run.Violation("c04", c04Divergence{Kind: "acknowledged-work-lost-or-half-applied", Interrupted: "empty memtable file", Diffs: d, History: w.log})
+			}
+		}
+		c.DropNode(n)
+	}
 	// crash enumeration
 	workloads := c.pick(1, 3)
 	length := c.pick(24, 40)
